@@ -205,7 +205,9 @@ pub fn run(ctx: &crate::RunCtx) -> (Summary, Vec<Violation>) {
     let mut n_case = 0u64;
     for idx in 0..ctx.count as usize {
         let item = corpus::build(ctx.seed, idx);
-        corpus::kinds(&item, &mut sum.probes);
+        if ctx.child == 0 {
+            corpus::kinds(&item, &mut sum.probes);
+        }
         for (name, comp) in components(&item) {
             let (cb, nbits) = clean_bits(&comp);
             let clean = BitModel::from_bytes(&cb, nbits);
@@ -235,7 +237,9 @@ pub fn run(ctx: &crate::RunCtx) -> (Summary, Vec<Violation>) {
                         }
                         *sum.fault_kinds.entry(format!("sink_error_{}_{}", sink, if sticky { "sticky" } else { "once" })).or_default() += 1;
                         let mut ops = 0;
-                        if let Some(v) = exec_case(&comp, &case, &clean, &cb, &mut ops) {
+                        let verdict = exec_case(&comp, &case, &clean, &cb, &mut ops);
+                        sum.note(n_case, ops ^ verdict.as_ref().map_or(0, |v| crate::rng::fnv(&v.class) ^ crate::rng::fnv(&v.site)));
+                        if let Some(v) = verdict {
                             *sum.classes.entry(v.class.clone()).or_default() += 1;
                             viols.push(v);
                         }
@@ -246,6 +250,12 @@ pub fn run(ctx: &crate::RunCtx) -> (Summary, Vec<Violation>) {
                     }
                 }
             }
+        }
+    }
+    if ctx.child == 0 {
+        let n = corpus::INCONSISTENT.load(std::sync::atomic::Ordering::Relaxed);
+        if n > 0 {
+            sum.probes.insert("corpus_copy_serialises_differently".into(), n);
         }
     }
     (sum, viols)
